@@ -68,6 +68,13 @@ def gen_case(rng):
                 lines += [h] * (1 if (HOSTS[h][1] or HOSTS[h][2]) else max(2, slots))
             raw = lines
             cfg['cpn'] = rng.choice([0, max(2, slots) * cfg['smt']])
+            comp = [h for h in hosts if not (HOSTS[h][1] or HOSTS[h][2])]
+            if len(comp) >= 2 and rng.random() < 0.3:
+                # `bsub -n <N> -R span[ptile=..]` with N no multiple of the tile: a later host is only partly used - its
+                # entry carries fewer slots than the others (the node sizes differ: nothing a uniform pilot can be built on)
+                odd = rng.choice(comp[1:])
+                raw.remove(odd)
+                cfg['cpn'] = max(2, slots) * cfg['smt']
         elif kind in ('torque', 'ccm') and style == 'mixed':
             cfg['cpn'] = rng.choice([slots, 4])
         elif kind in ('cobalt', 'pbspro') and cfg['cpn'] == 0:
